@@ -1,0 +1,138 @@
+//go:build verif
+
+// Contracts of the gossip cluster state for the deductive verifier in /verif
+// (vcgo). Comment-only; compiled only with -tags verif.
+
+package gossip
+
+// ---------------------------------------------------------------------------
+// clusterState (C17, C02, C11, C13, C14, C20)
+
+//@ immutable clusterState.localID clusterState.failureDetector clusterState.metrics clusterState.watcher
+//@ nonnil clusterState.failureDetector clusterState.watcher clusterState.metrics
+//@ noop (*clusterState).metricsAddEntry
+//@ noop (*clusterState).metricsDeleteEntry
+//@ noop (*clusterState).metricsUpsertEntry
+
+//@ monitor clusterState.mu level 20 self s guards clusterState.nodes, nodeState.NodeMetadata, nodeState.Entries inv csInv(s) && wInv(s)
+
+// Representation invariant of one node's view: every entry is stored under
+// its own key, no entry is newer than the view's version, versions identify
+// entries.
+//@ pure nsInv(n *nodeState) bool = n.Entries != nil && allocated(n.Entries)
+//@    && (forall k string :: k in n.Entries ==> n.Entries[k].Key == k && n.Entries[k].Version <= n.Version)
+//@    && (forall k1 string, k2 string :: k1 in n.Entries && k2 in n.Entries && k1 != k2 ==> n.Entries[k1].Version != n.Entries[k2].Version)
+
+// The cluster state: the local node is always known, is never unreachable and
+// never expires; every node is stored under its own id; nodes share nothing.
+//@ pure csInv(s *clusterState) bool = s.nodes != nil && s.localID in s.nodes
+//@    && (forall id string :: id in s.nodes ==> s.nodes[id] != nil && allocated(s.nodes[id]) && s.nodes[id].ID == id && nsInv(s.nodes[id]))
+//@    && (forall a string, b string :: a in s.nodes && b in s.nodes && a != b ==> s.nodes[a] != s.nodes[b] && s.nodes[a].Entries != s.nodes[b].Entries)
+//@    && !s.nodes[s.localID].Unreachable && s.nodes[s.localID].Expiry.IsZero()
+
+// The live (visible) part of a node's key-value state.
+//@ pure liveHas(n *nodeState, k string) bool = k in n.Entries && !n.Entries[k].Deleted
+//@ pure liveVal(n *nodeState, k string) string = n.Entries[k].Value
+
+// ---- local writes (C17) ----------------------------------------------------
+
+//@ contract (*clusterState).UpsertLocal
+//@   serves C17 C02 C20
+//@   let L = s.nodes[s.localID]
+//@   let changed = !(old(liveHas(L, key)) && old(liveVal(L, key)) == value)
+//@   modifies L.NodeMetadata, entries(L.Entries)
+//@   ensures[lww] liveHas(L, key) && liveVal(L, key) == value
+//@   ensures[frame] forall k string :: k != key ==> (k in L.Entries) == old(k in L.Entries) && L.Entries[k] == old(L.Entries[k])
+//@   ensures[fresh] changed ==> L.Version == old(L.Version) + 1 && L.Entries[key].Version == L.Version && L.Entries[key].Key == key
+//@   ensures[noop] !changed ==> L.Version == old(L.Version) && L.Entries[key] == old(L.Entries[key])
+//@   ensures[meta] L.ID == old(L.ID) && L.Addr == old(L.Addr) && L.Left == old(L.Left) && L.Unreachable == old(L.Unreachable) && L.Expiry == old(L.Expiry)
+//@   ensures[same-nodes] s.nodes == old(s.nodes) && L == old(L) && L.Entries == old(L.Entries)
+
+//@ contract (*clusterState).DeleteLocal
+//@   serves C17 C02 C20
+//@   let L = s.nodes[s.localID]
+//@   let had = old(liveHas(L, key))
+//@   modifies L.NodeMetadata, entries(L.Entries)
+//@   ensures[deleted] !liveHas(L, key)
+//@   ensures[tombstone] had ==> key in L.Entries && L.Entries[key].Deleted && L.Entries[key].Key == key && L.Entries[key].Internal == old(L.Entries[key].Internal)
+//@   ensures[fresh] had ==> L.Version == old(L.Version) + 1 && L.Entries[key].Version == L.Version
+//@   ensures[noop] !had ==> L.Version == old(L.Version) && (key in L.Entries) == old(key in L.Entries) && L.Entries[key] == old(L.Entries[key])
+//@   ensures[frame] forall k string :: k != key ==> (k in L.Entries) == old(k in L.Entries) && L.Entries[k] == old(L.Entries[k])
+//@   ensures[meta] L.ID == old(L.ID) && L.Addr == old(L.Addr) && L.Left == old(L.Left) && L.Unreachable == old(L.Unreachable) && L.Expiry == old(L.Expiry)
+
+//@ contract (*clusterState).LeaveLocal
+//@   serves C17 C11 C02 C20
+//@   let L = s.nodes[s.localID]
+//@   modifies L.NodeMetadata, entries(L.Entries)
+//@   ensures[left] L.Left
+//@   ensures[published] !old(L.Left) ==> leftKey in L.Entries && L.Entries[leftKey].Internal && !L.Entries[leftKey].Deleted && L.Entries[leftKey].Key == leftKey
+//@   ensures[fresh] !old(L.Left) ==> L.Version == old(L.Version) + 1 && L.Entries[leftKey].Version == L.Version
+//@   ensures[idempotent] old(L.Left) ==> L.Version == old(L.Version) && L.Entries[leftKey] == old(L.Entries[leftKey]) && (leftKey in L.Entries) == old(leftKey in L.Entries)
+//@   ensures[frame] forall k string :: k != leftKey ==> (k in L.Entries) == old(k in L.Entries) && L.Entries[k] == old(L.Entries[k])
+//@   ensures[meta] L.ID == old(L.ID) && L.Addr == old(L.Addr) && L.Unreachable == old(L.Unreachable) && L.Expiry == old(L.Expiry)
+
+// ---- watcher fold (C14), pointwise ------------------------------------------
+//
+// The fold of the notifications is tracked for one arbitrary but fixed node id
+// gNode() and key gKey(); everything proved about it holds for every node and
+// key, since nothing is assumed about the two.
+
+//@ uninterp gNode() string
+//@ uninterp gKey() string
+//@ uninterp isInternalKey(k string) bool
+//@ axiom internalKeys: isInternalKey(leftKey) && isInternalKey(compactKey)
+//@ ghost wNode bool
+//@ ghost wHas bool
+//@ ghost wVal string
+//@ ghost wLeft bool
+//@ ghost wUnreach bool
+
+//@ iface (Watcher).OnJoin
+//@   acquires 30
+//@   modifies-all $wNode
+//@   ensures[fold] wNode == (old(wNode) || nodeID == gNode())
+//@ iface (Watcher).OnLeave
+//@   acquires 30
+//@   requires[announced] nodeID == gNode() ==> wNode
+//@   modifies-all $wLeft
+//@   ensures[fold] wLeft == (old(wLeft) || nodeID == gNode())
+//@ iface (Watcher).OnUnreachable
+//@   acquires 30
+//@   requires[announced] nodeID == gNode() ==> wNode
+//@   modifies-all $wUnreach
+//@   ensures[fold] wUnreach == (old(wUnreach) || nodeID == gNode())
+//@ iface (Watcher).OnReachable
+//@   acquires 30
+//@   requires[announced] nodeID == gNode() ==> wNode
+//@   modifies-all $wUnreach
+//@   ensures[fold] wUnreach == (old(wUnreach) && nodeID != gNode())
+//@ iface (Watcher).OnUpsertKey
+//@   acquires 30
+//@   requires[announced] nodeID == gNode() ==> wNode
+//@   modifies-all $wHas $wVal
+//@   ensures[fold] (nodeID == gNode() && key == gKey()) ? (wHas && wVal == value) : (wHas == old(wHas) && wVal == old(wVal))
+//@ iface (Watcher).OnDeleteKey
+//@   acquires 30
+//@   requires[announced] nodeID == gNode() ==> wNode
+//@   modifies-all $wHas
+//@   ensures[fold] wHas == (old(wHas) && !(nodeID == gNode() && key == gKey()))
+//@ iface (Watcher).OnExpired
+//@   acquires 30
+//@   modifies-all $wNode $wHas $wLeft $wUnreach
+//@   ensures[fold] nodeID == gNode() ? (!wNode && !wHas && !wLeft && !wUnreach) : (wNode == old(wNode) && wHas == old(wHas) && wLeft == old(wLeft) && wUnreach == old(wUnreach))
+
+//@ iface (failureDetector).SuspicionLevel
+//@   acquires 35
+//@ iface (failureDetector).Remove
+//@   acquires 35
+//@ iface (failureDetector).Report
+//@   acquires 35
+
+// What the watcher has been told equals what the state shows (for gNode, gKey):
+// visible = present, not deleted, not internal.
+//@ pure visible(n *nodeState, k string) bool = k in n.Entries && !n.Entries[k].Deleted && !n.Entries[k].Internal
+//@ pure wInv(s *clusterState) bool = (gNode() != s.localID ==>
+//@        (wNode == (gNode() in s.nodes))
+//@     && (gNode() in s.nodes ==> (wHas == visible(s.nodes[gNode()], gKey())) && (wHas ==> wVal == s.nodes[gNode()].Entries[gKey()].Value)
+//@                               && wLeft == s.nodes[gNode()].Left && wUnreach == s.nodes[gNode()].Unreachable)
+//@     && (!(gNode() in s.nodes) ==> !wHas && !wLeft && !wUnreach))
